@@ -197,6 +197,13 @@ class C14(Check):
         cfg["final"] = r.choice([20, 40, 70, 110, 160] if tier == "quick" else [40, 70, 110, 160, 250, 400])
         if strategy in ("dimension_wise_de", "dimension_wise_uq"):
             cfg["estimator"] = "keyed"
+        if strategy == "dimension_wise" and cfg.get("grid"):
+            # hierarchical / high-order global rules are slow (B-spline: seconds per evaluation beyond a hundred points): short, small histories
+            cfg["final"] = r.choice([20, 40, 60])
+            cfg["dim"] = min(cfg["dim"], 2); cfg["a"] = cfg["a"][:cfg["dim"]]; cfg["b"] = cfg["b"][:cfg["dim"]]
+            cfg["lmin"] = min(cfg["lmin"], 2); cfg["lmax"] = max(2, min(cfg["lmax"], cfg["lmin"] + 1))
+            if cfg.get("bias") and isinstance(cfg["bias"][1], list):
+                cfg["bias"][1] = cfg["bias"][1][:cfg["dim"]]
         if strategy == "dimension_wise_de":
             cfg["final"] = r.choice([20, 40, 70, 110])
         cfg["fault_weights"] = {f: r.choice([0, 1, 1, 2]) for f in FAULTS if f != "child_restore"}
